@@ -38,6 +38,8 @@ package rest
 //	use id=<k>               => ok      Server.Use(middleware u<k>)
 //	start                    => listen | panic:<verdict>     Server.Start() with a port that cannot be opened
 //	cfg must=1                          the server is built by rest.MustNewServer
+//	other m=<method> p=<path>  => clean=<…> <outcome>   a second rest.Server (own route GET /other/:o -> h=9999), alive
+//	                                    at the same time as the first, serves the request
 
 import (
 	"errors"
@@ -118,6 +120,34 @@ func c09SrvUses(r *verifh.Rng, ops []string, lo int) []string {
 		ops = append(ops[:at], append([]string{op}, ops[at:]...)...)
 	}
 	return ops
+}
+
+// c09SrvOthers: in one section of five a second server is alive next to the first: some of the requests are also sent
+// to it (it knows none of the first server's routes), and its own route is asked from both.
+func c09SrvOthers(r *verifh.Rng, ops []string) []string {
+	if !r.Chance(1, 5) {
+		return ops
+	}
+	var out []string
+	seenReq := false
+	for _, op := range ops {
+		out = append(out, op)
+		f := strings.Fields(op)
+		if f[0] != "req" {
+			continue
+		}
+		if !seenReq {
+			seenReq = true
+			out = append(out, "other m=GET p=/other/zz")
+		}
+		if r.Chance(1, 3) {
+			out = append(out, "other "+f[1]+" "+f[2])
+		}
+		if r.Chance(1, 6) {
+			out = append(out, "req m="+r.PickS("GET", "POST")+" p=/other/"+r.PickS("zz", "a")+" n=1", "other m="+r.PickS("GET", "PUT")+" p=/other/"+r.PickS("a/", "a/b", ""))
+		}
+	}
+	return out
 }
 
 // c09SrvCfg: how the server is built and started.
@@ -360,7 +390,7 @@ func (g *c09SrvGen) section() verifh.Section {
 	if r.Chance(1, 4) {
 		mw = 1 // native middlewares between the router and the route handler
 	}
-	return verifh.Section{Cfg: fmt.Sprintf("kind=server mode=%d mw=%d must=%d", mode, mw, r.Pick(0, 0, 1)), Ops: ops}
+	return verifh.Section{Cfg: fmt.Sprintf("kind=server mode=%d mw=%d must=%d", mode, mw, r.Pick(0, 0, 1)), Ops: c09SrvOthers(r, ops)}
 }
 
 // sectionAPI: route tables built through the public API in all its forms: caller-owned slices that are added
@@ -572,7 +602,7 @@ func (g *c09SrvGen) sectionAPI() verifh.Section {
 	if r.Chance(1, 4) {
 		mw = 1
 	}
-	return verifh.Section{Cfg: fmt.Sprintf("kind=server mode=0 mw=%d api=1 must=%d", mw, r.Pick(0, 0, 1)), Ops: ops}
+	return verifh.Section{Cfg: fmt.Sprintf("kind=server mode=0 mw=%d api=1 must=%d", mw, r.Pick(0, 0, 1)), Ops: c09SrvOthers(r, ops)}
 }
 
 func c09SrvGenAll(r *verifh.Rng) []verifh.Section {
@@ -743,6 +773,65 @@ func TestVerifC09Server(t *testing.T) {
 				}
 			}
 		}
+		// one request on one handler: the canonical outcome
+		one := func(h http.Handler, req *http.Request) string {
+			rec := httptest.NewRecorder()
+			hits = hits[:0]
+			trail = trail[:0]
+			ended = ""
+			esc := c09SrvServe(h, rec, req)
+			var o string
+			switch {
+			case len(hits) > 1:
+				o = fmt.Sprintf("several-handlers=%d", len(hits))
+			case len(hits) == 1 && hits[0].kind == "h":
+				var kv []string
+				for k, v := range hits[0].vars {
+					kv = append(kv, k+"="+v)
+				}
+				sort.Strings(kv)
+				o = fmt.Sprintf("h=%d vars=%s", hits[0].id, strings.Join(kv, ","))
+				if len(trail) > 0 {
+					o += " mw=" + strings.Join(trail, ".")
+				}
+				if rec.Code != 200 {
+					o += fmt.Sprintf(" status=%d", rec.Code)
+				}
+			case len(hits) == 0 && rec.Code == http.StatusUnauthorized:
+				o = "401"
+				if len(trail) > 0 {
+					o += " mw=" + strings.Join(trail, ".") // the WithChain middlewares sit in front of Authorize
+				}
+			case len(trail) > 0:
+				o = "middleware-without-handler=" + strings.Join(trail, ".")
+			case len(hits) == 1:
+				o = fmt.Sprintf("%s=%d code=%d", hits[0].kind, hits[0].id, rec.Code)
+				if a := rec.Header().Get("Allow"); a != "" {
+					o += " allow=" + strings.ReplaceAll(a, " ", "")
+				}
+			case rec.Code == http.StatusMethodNotAllowed:
+				al := strings.Split(rec.Header().Get("Allow"), ", ")
+				sort.Strings(al)
+				o = "405 allow=" + strings.Join(al, ",")
+			case rec.Code == http.StatusNotFound:
+				o = "404"
+				if a := rec.Header().Get("Allow"); a != "" {
+					o += " allow=" + strings.ReplaceAll(a, " ", "")
+				}
+			case rec.Code == http.StatusUnauthorized:
+				o = "401"
+			default:
+				o = fmt.Sprintf("code=%d", rec.Code)
+			}
+			if ended != "" {
+				o += " end=" + ended
+			}
+			if esc != "" {
+				o += " esc=" + esc
+			}
+			return o
+		}
+		var other *Server
 		step := func(op []string) string {
 			switch op[0] {
 			case "opt":
@@ -800,6 +889,28 @@ func TestVerifC09Server(t *testing.T) {
 			case "start":
 				build()
 				return c09SrvStart(srv)
+			case "other":
+				// a SECOND rest.Server alive at the same time (own engine, own router, one route of its own,
+				// bound at once): the request is served by it
+				build()
+				if other == nil {
+					var err error
+					if other, err = NewServer(RestConf{}); err != nil {
+						panic(err)
+					}
+					other.AddRoute(Route{Method: "GET", Path: "/other/:o", Handler: func(w http.ResponseWriter, r *http.Request) {
+						hits = append(hits, c09SrvHit{"h", 9999, pathvar.Vars(r)})
+					}})
+					if err := other.ngin.bindRoutes(other.router); err != nil {
+						return "err:" + c09SrvVerdict(err)
+					}
+				}
+				m, _ := c09SrvArg(op, "m=")
+				p, _ := c09SrvArg(op, "p=")
+				req := httptest.NewRequest(http.MethodGet, "/", nil)
+				req.Method = m
+				req.URL = &url.URL{Path: p}
+				return "clean=" + path.Clean(p) + " " + one(other.router, req)
 			case "group":
 				build()
 				var rs []Route
@@ -919,60 +1030,7 @@ func TestVerifC09Server(t *testing.T) {
 					if outer != nil {
 						req = pathvar.WithVars(req, outer) // an outer router bound these
 					}
-					rec := httptest.NewRecorder()
-					hits = hits[:0]
-					trail = trail[:0]
-					ended = ""
-					esc := c09SrvServe(srv.router, rec, req)
-					var o string
-					switch {
-					case len(hits) > 1:
-						o = fmt.Sprintf("several-handlers=%d", len(hits))
-					case len(hits) == 1 && hits[0].kind == "h":
-						var kv []string
-						for k, v := range hits[0].vars {
-							kv = append(kv, k+"="+v)
-						}
-						sort.Strings(kv)
-						o = fmt.Sprintf("h=%d vars=%s", hits[0].id, strings.Join(kv, ","))
-						if len(trail) > 0 {
-							o += " mw=" + strings.Join(trail, ".")
-						}
-						if rec.Code != 200 {
-							o += fmt.Sprintf(" status=%d", rec.Code)
-						}
-					case len(hits) == 0 && rec.Code == http.StatusUnauthorized:
-						o = "401"
-						if len(trail) > 0 {
-							o += " mw=" + strings.Join(trail, ".") // the WithChain middlewares sit in front of Authorize
-						}
-					case len(trail) > 0:
-						o = "middleware-without-handler=" + strings.Join(trail, ".")
-					case len(hits) == 1:
-						o = fmt.Sprintf("%s=%d code=%d", hits[0].kind, hits[0].id, rec.Code)
-						if a := rec.Header().Get("Allow"); a != "" {
-							o += " allow=" + strings.ReplaceAll(a, " ", "")
-						}
-					case rec.Code == http.StatusMethodNotAllowed:
-						al := strings.Split(rec.Header().Get("Allow"), ", ")
-						sort.Strings(al)
-						o = "405 allow=" + strings.Join(al, ",")
-					case rec.Code == http.StatusNotFound:
-						o = "404"
-						if a := rec.Header().Get("Allow"); a != "" {
-							o += " allow=" + strings.ReplaceAll(a, " ", "")
-						}
-					case rec.Code == http.StatusUnauthorized:
-						o = "401"
-					default:
-						o = fmt.Sprintf("code=%d", rec.Code)
-					}
-					if ended != "" {
-						o += " end=" + ended
-					}
-					if esc != "" {
-						o += " esc=" + esc
-					}
+					o := one(srv.router, req)
 					seen[o] = true
 				}
 				beh = ""
